@@ -1,6 +1,10 @@
 (* C13 — rate change.  Property theorems only. *)
+From Coq Require Import String.
 From Coq Require Import ZArith QArith Qround List Bool.
 From RV Require Import Base.PyNum Frame.Frame Map.Stacker Map.StackerSpec Map.Rate Map.RateFile Proofs.RateProofs.
+From RV Require Import Formats.Timeline Map.RateWrite Proofs.RateWriteProofs.
+From RV Require Formats.Qua Formats.QuaSpec Formats.Osu Formats.OsuSpec Formats.SM Formats.SMSpec Formats.SMWriteDom Formats.BMS
+  Formats.BMSSpec Proofs.QuaProofs Proofs.SMProofs Proofs.SMWriteWholeFile Proofs.SMWriteWholeEx Timing.Snapper Generated.Tables.
 Import ListNotations.
 Open Scope Q_scope.
 
@@ -33,34 +37,64 @@ Proof. exact rate_compose. Qed.
    File-level fields (Map/RateFile.v: osu_rate = OsuMap.rate, sm_mapset_rate = SMMapSet.rate, mapset_rate = MapSet.rate)
    --------------------------------------------------------------------------------------------------------------- *)
 
-(* OsuMap.rate: the timed lists are scaled (C13_rate_scales), every sample event's time is divided by r with its file and
-   volume unchanged, the preview value is divided by r, every other attribute is unchanged *)
+(* OsuMap.rate (as repaired by repo commit 09d92a7): the timed lists are scaled (C13_rate_scales), every sample event's time
+   is divided by r with its file and volume unchanged, the preview value is KEPT when it is the marker -1 ("no preview
+   point") and divided by r otherwise, every other attribute is unchanged *)
 Theorem C13_osu_file_fields_scale : forall r f, wf_osu_file f = true ->
   of_lists (osu_rate r f) = rate_spec r (of_lists f) /\
   of_samples (osu_rate r f) = scale_ulist r (of_samples f) /\
-  of_preview (osu_rate r f) == of_preview f / r /\
+  (of_preview f == -1 -> of_preview (osu_rate r f) = of_preview f) /\
+  (~ of_preview f == -1 -> of_preview (osu_rate r f) == of_preview f / r) /\
   of_meta (osu_rate r f) = of_meta f.
 Proof. exact osu_file_fields_scale. Qed.
 Theorem C13_osu_file_rate_one : forall f, wf_osu_file f = true -> osu_file_eqb (osu_rate 1 f) f = true.
 Proof. exact osu_file_rate_one. Qed.
+(* composition, exact guard on the preview value: a preview TIME p = -a (negative) becomes the value -1 after rate a and is
+   then taken for the marker by the next rate change (the code compares the value with -1) *)
 Theorem C13_osu_file_rate_compose : forall a b f, wf_osu_file f = true -> ~ a == 0 -> ~ b == 0 ->
+  (of_preview f == -1 \/ ~ of_preview f == - a) ->
   osu_file_eqb (osu_rate b (osu_rate a f)) (osu_rate (a * b) f) = true.
 Proof. exact osu_file_rate_compose. Qed.
+Theorem C13_osu_file_rate_compose_pos : forall a b f, wf_osu_file f = true -> 0 < a -> 0 < b ->
+  (of_preview f == -1 \/ 0 <= of_preview f) ->
+  osu_file_eqb (osu_rate b (osu_rate a f)) (osu_rate (a * b) f) = true.
+Proof. exact osu_file_rate_compose_pos. Qed.
+(* without the guard it is refuted: preview -2, rate 2 then rate 2 gives -1, rate 4 gives -1/2 (replayed on the real code) *)
+Theorem C13_osu_file_rate_compose_refuted :
+  exists f a b, wf_osu_file f = true /\ 0 < a /\ 0 < b /\ of_preview f = -2 /\
+                of_preview (osu_rate b (osu_rate a f)) = -1 /\ of_preview (osu_rate (a * b) f) = (-1 # 2) /\
+                osu_file_eqb (osu_rate b (osu_rate a f)) (osu_rate (a * b) f) = false.
+Proof. exact osu_file_rate_compose_refuted. Qed.
 
-(* osu's PreviewTime -1 means "no preview point".  The code divides it like a time: -1 becomes -1/r (written as
-   "PreviewTime: 0" for r > 1, replayed on the real code).  Under the reading "a chart without a preview point has none
-   after the rate change" the statement is refuted; it holds for every chart whose preview point is at a time >= 0, and
-   at rate 1 for every chart. *)
-Theorem C13_osu_preview_unset_kept_refuted :
-  exists f r, wf_osu_file f = true /\ 0 < r /\ preview_point (of_preview f) = None /\
-              of_preview (osu_rate r f) = (-1 # 2) /\ preview_point (of_preview (osu_rate r f)) = Some (-1 # 2) /\
+(* osu's PreviewTime -1 means "no preview point".  A chart without a preview point has none after the rate change (the
+   stored value is untouched); a chart with a preview point p has it at p / r, unless p = -r (a negative time landing on
+   the marker); in particular for every p >= 0 and r > 0, and at rate 1 for every chart. *)
+Theorem C13_osu_preview_unset_kept : forall r f, preview_point (of_preview f) = None ->
+  of_preview (osu_rate r f) = of_preview f /\ preview_point (of_preview (osu_rate r f)) = None.
+Proof. exact osu_preview_unset_kept. Qed.
+Theorem C13_osu_preview_strict : forall r f, ~ r == 0 -> (of_preview f == -1 \/ ~ of_preview f == - r) ->
+  preview_scaled_strict r (of_preview f) (of_preview (osu_rate r f)) = true.
+Proof. exact osu_preview_strict. Qed.
+Theorem C13_osu_preview_strict_refuted :
+  exists f r, wf_osu_file f = true /\ 0 < r /\ of_preview f = -2 /\ of_preview (osu_rate r f) = -1 /\
               preview_scaled_strict r (of_preview f) (of_preview (osu_rate r f)) = false.
-Proof. exact osu_preview_unset_kept_refuted. Qed.
-Theorem C13_osu_preview_point_scales : forall r f, 0 < r -> 0 <= of_preview f ->
+Proof. exact osu_preview_strict_refuted. Qed.
+Theorem C13_osu_preview_point_scales : forall r f, 0 < r -> (of_preview f == -1 \/ 0 <= of_preview f) ->
   preview_scaled_strict r (of_preview f) (of_preview (osu_rate r f)) = true.
 Proof. exact osu_preview_point_scales. Qed.
 Theorem C13_osu_preview_rate_one : forall f, preview_scaled_strict 1 (of_preview f) (of_preview (osu_rate 1 f)) = true.
 Proof. exact osu_preview_rate_one. Qed.
+(* the OLD model (before 09d92a7: the value divided whatever it held) turned the marker into a preview point: -1 -> -1/2,
+   written "PreviewTime: 0"; the current model keeps the marker on that witness *)
+Theorem C13_OLD_osu_preview_unset_refuted :
+  exists f r, wf_osu_file f = true /\ 0 < r /\ preview_point (of_preview f) = None /\
+              of_preview (osu_rate_OLD r f) = (-1 # 2) /\ preview_point (of_preview (osu_rate_OLD r f)) = Some (-1 # 2) /\
+              preview_scaled_strict r (of_preview f) (of_preview (osu_rate_OLD r f)) = false.
+Proof. exact OLD_osu_preview_unset_refuted. Qed.
+Theorem C13_osu_preview_former_witness_ok :
+  of_preview (osu_rate 2 wit_unset_preview) = -1 /\
+  preview_scaled_strict 2 (of_preview wit_unset_preview) (of_preview (osu_rate 2 wit_unset_preview)) = true.
+Proof. exact osu_preview_former_witness_ok. Qed.
 
 (* SMMapSet.rate: every chart scaled, #OFFSET (when set), sample start and sample length divided by r, the rest unchanged *)
 Theorem C13_sm_file_fields_scale : forall r f, wf_sm_file f = true ->
@@ -119,3 +153,164 @@ Example C13_example_sm_file :
               [mkUlist [0; 1; 2]%Z [[CNum 1000; CNum 3; CNum 375]]; mkUlist [0; 3; 4]%Z [[CNum 250; CNum 240; CNum 4]]]]
              (Some 250) 5000 2500 [CStr 1; CBool false].
 Proof. vm_compute. split; reflexivity. Qed.
+
+(* ===============================================================================================================
+   Writing the rated chart and reading it back gives the rated timeline (Map/RateWrite.v, Proofs/RateWriteProofs.v).
+   Statements over the format models and their reference semantics (qua_denote / osu_denote / sm_denote / bms_denote),
+   by composition with each format's own writer theorem.  tl_scale r t: every time and duration of t divided by r, every
+   bpm multiplied by r, kinds / columns / counts unchanged.
+   =============================================================================================================== *)
+
+(* ---- Quaver: whole document, every chart of C06's strict writer domain, every r <> 0.  QuaRateProofs.survives r c out:
+   out = Some d, d well-formed, qua_denote d = Some e, chart_denote c = Some a, and element by element in writing order:
+   same kind and lane, start and end within LESS than 1 ms of time / r, same key sounds; timing points within less than
+   1 ms of time / r with bpm * r exactly; scroll velocities at time / r with their multiplier; metadata kept. ---- *)
+Theorem C13_qua_rate_survives_write : forall r c, ~ r == 0 -> QuaSpec.wf_chartb false c = true ->
+  QuaRateProofs.survives r c (Qua.Live.write (QuaRate.qua_rate r c)).
+Proof. exact QuaRateProofs.qua_rate_survives_write. Qed.
+(* the same for ANY in-memory representation c' of the rated chart (numeric cells by value: pandas may hand an integer
+   column back as float after the stacker's concat) that is in the writer's domain *)
+Theorem C13_qua_rated_survives_write : forall r c c', ~ r == 0 -> QuaSpec.wf_chartb false c = true ->
+  QuaSpec.wf_chartb false c' = true -> QuaRate.chart_rated r c c' -> QuaRateProofs.survives r c (Qua.Live.write c').
+Proof. exact QuaRateProofs.qua_rated_survives_write. Qed.
+Theorem C13_qua_rate_is_rated : forall r c, QuaRate.chart_rated r c (QuaRate.qua_rate r c).
+Proof. exact QuaRateProofs.qua_rate_is_rated. Qed.
+Theorem C13_qua_rate_in_writer_domain : forall r c, QuaSpec.wf_chartb false c = true ->
+  QuaSpec.wf_chartb false (QuaRate.qua_rate r c) = true.
+Proof. exact QuaRateProofs.qua_rate_wf. Qed.
+(* in C09's vocabulary: the written document's timeline is the rated timeline at resolution 1 ms, tempo values equal *)
+Theorem C13_qua_rate_survives_write_timeline : forall r c, ~ r == 0 -> QuaSpec.wf_chartb false c = true ->
+  exists d e a, Qua.Live.write (QuaRate.qua_rate r c) = Some d /\ QuaSpec.qua_denote d = Some e /\
+                QuaSpec.chart_denote c = Some a /\
+                timeline_close 1 0 (tl_of_qua e) (tl_scale r (tl_of_qua a)) /\
+                length (tl_notes (tl_of_qua e)) = length (tl_notes (tl_of_qua a)) /\
+                length (tl_tempo (tl_of_qua e)) = length (tl_tempo (tl_of_qua a)).
+Proof. exact QuaRateProofs.qua_rate_survives_write_timeline. Qed.
+(* and QuaMap.read of that document returns a chart denoting what the document denotes (C06) *)
+Theorem C13_qua_rate_read_back : forall r c, QuaSpec.wf_chartb false c = true ->
+  exists d c', Qua.Live.write (QuaRate.qua_rate r c) = Some d /\ Qua.Live.read d = Some c' /\
+               QuaProofs.ReadSpec d (Some c') /\ QuaSpec.wf_chartb false c' = true.
+Proof. exact QuaRateProofs.qua_rate_read_back. Qed.
+
+(* ---- osu, PARTIAL: C01's whole-file writer theorem does not exist yet (line-level theorems + per-run oracle), so the
+   statement is against C01's write oracle: IF the written text of the rated chart satisfies OsuSpec.write_specb THEN it is
+   well-formed and denotes (OsuRateProofs.survives): the same notes up to order with kind and column, start and end within
+   less than 1 ms of time / r; tempo points at exactly time / r with bpm * r (within the oracle's 1e-9 relative allowance
+   for float printing); sample events within less than 1 ms of time / r with file and volume; SVs at time / r.
+   Missing: forall c in C01's domain, write_specb 0 c ut ua (rendered osu_write c) = true -- and C01's written_chart must
+   truncate PreviewTime (today write_specb is false for every chart with a fractional preview, see C13_example_osu_fractional_preview). ---- *)
+Theorem C13_osu_rate_survives_write_partial : forall r c ut ua written, ~ r == 0 ->
+  OsuSpec.write_specb 0 (OsuRate.osu_chart_rate r c) ut ua written = true ->
+  exists d, OsuSpec.osu_denote written = Some d /\ OsuSpec.wf_osu_text written = true /\ OsuRateProofs.survives r c d.
+Proof. exact OsuRateProofs.osu_rate_survives_write_partial. Qed.
+(* the same from the list part of the oracle alone (holds also when the preview point is fractional) *)
+Theorem C13_osu_rated_lists_survive_partial : forall r c d, ~ r == 0 ->
+  OsuRateProofs.lists_written d (OsuRate.osu_chart_rate r c) = true -> OsuRateProofs.survives r c d.
+Proof. exact OsuRateProofs.osu_rated_lists_survive. Qed.
+(* the preview point of the rated chart is written as int(preview / r), and as -1 when the chart has none *)
+Theorem C13_osu_rate_preview_line : forall r c ut ua, (length (Osu.c_meta c) > 2)%nat ->
+  In [Osu.WT (Text.t "PreviewTime: "%string ++ Text.show_int (qtrunc (osu_preview_rate r (Osu.meta_num (Osu.c_meta c) OsuRate.IX_PREVIEW))))]
+     (Osu.write_meta (OsuRate.osu_chart_rate r c) ut ua).
+Proof. exact OsuRateProofs.osu_rate_preview_line. Qed.
+
+(* ---- StepMania: by composition with C03's whole-file writer theorem, for every mapset and rate whose RATED mapset lies in
+   C03's exact domain c03_domb (decidable; closure of that domain under rate is not proved).  Every exact rendering of the
+   written tokens is a well-formed .sm text with beat 0 at offset / r, the sample window at start / r and length / r, the
+   text fields unchanged, and the source's charts in order: per kind of object the denoted objects are the source's up to
+   order, in their columns, at EXACTLY time / r with length / r.  (C03's theorem does not state the denoted tempo list;
+   bpm * r in #BPMS is covered by the per-run oracle only.) ---- *)
+Theorem C13_sm_rate_survives_write : forall r s, SMWriteWholeFile.c03_domb (SMRate.sm_set_rate r s) = true ->
+  exists toks, SM.sm_write SMProofs.live_conf SM.current (SMRate.sm_set_rate r s) = Some toks /\
+    forall txt, SM.match_toks 0 toks txt = true ->
+      exists d, SMSpec.sm_denote txt = Some d /\ SMRate.header_survives r s d /\
+                Forall2 (SMRate.chart_survives r) (SMSpec.d_charts d) (SM.s_maps s) /\
+                SMSpec.forallb2 (fun tag v => match SMSpec.lookup_last tag (SMSpec.d_items d) None with
+                                              | Some x => SMText.text_eqb x v | None => false end)
+                                SMSpec.text_field_tags (SM.s_txt s) = true.
+Proof. exact SMRateProofs.sm_rate_survives_write. Qed.
+
+(* ---- BMS: by composition with C05's whole-file writer theorem, for every chart and rate whose RATED chart lies in C05's
+   write domain (decidable; it demands tempos that ':.3f' prints without loss, which rating can break).  BMSRate.survives:
+   every hit and hold of the source exactly once, in its column, within 1/192 beat (at the rated tempo in force) of
+   time / r and exactly there on the snap grid, hold ends likewise, the tempo changes at time / r with bpm * r. ---- *)
+Theorem C13_bms_rate_survives_write : forall mk lay dflt r c (rd : Q -> BMSText.text),
+  BMSSpec.write_dom Tables.Tables.snapper_table mk lay dflt (BMSRate.bms_chart_rate r c) = true ->
+  (forall q, BMSText.parse_decimal (rd q) <> None) ->
+  exists ls l d, BMS.bms_write Tables.Tables.snapper_table lay dflt (BMSRate.bms_chart_rate r c) = Some ls /\
+    BMSSpec.wscript Tables.Tables.snapper_table (BMSRate.bms_chart_rate r c) = Some l /\
+    BMSSpec.bms_denote lay (map (BMSSpec.render_with rd) ls) = Some d /\
+    BMSRate.survives Tables.Tables.snapper_table dflt r c l d.
+Proof. exact (BMSRateProofs.bms_rate_survives_write Tables.Tables.snapper_table Examples.table_ok_live). Qed.
+
+(* ---- the format-level rate functions used above ARE the modelled Map.rate / OsuMap.rate / SMMapSet.rate: embedding the
+   typed chart into the stacker model's lists commutes with rating ---- *)
+Theorem C13_osu_chart_rate_is_model : forall r c, (length (Osu.c_meta c) > 2)%nat ->
+  Embed.osu_file_of (OsuRate.osu_chart_rate r c) = osu_rate r (Embed.osu_file_of c).
+Proof. exact EmbedProofs.osu_embed_rate. Qed.
+Theorem C13_sm_set_rate_is_model : forall r s, Embed.sm_file_of (SMRate.sm_set_rate r s) = sm_mapset_rate r (Embed.sm_file_of s).
+Proof. exact EmbedProofs.sm_embed_rate. Qed.
+Theorem C13_bms_chart_rate_is_model : forall r c, Embed.bms_lists (BMSRate.bms_chart_rate r c) = rate_lists r (Embed.bms_lists c).
+Proof. exact EmbedProofs.bms_embed_rate. Qed.
+Theorem C13_qua_rate_is_model : forall r c, QuaSpec.wf_chartb false c = true -> forallb wf_ulist (Embed.qua_lists c) = true ->
+  Embed.qua_lists (QuaRate.qua_rate r c) = rate_lists r (Embed.qua_lists c).
+Proof. exact EmbedProofs.qua_embed_rate_wf. Qed.
+
+(* ---- non-vacuity of the write part ---- *)
+(* Quaver: a chart with two hits, a hold, a tempo point and an SV, rated by 2, written and denoted: notes at 500, 625 and
+   [500, 875], tempo (250 ms, 300 bpm) *)
+Example C13_example_qua_write :
+  QuaSpec.wf_chartb false Examples.qua_ex = true /\
+  match Qua.Live.write (QuaRate.qua_rate 2 Examples.qua_ex), QuaSpec.chart_denote Examples.qua_ex with
+  | Some d, Some a =>
+      match QuaSpec.qua_denote d with
+      | Some e => timeline_closeb 1 0 (tl_of_qua e) (tl_scale 2 (tl_of_qua a)) = true
+                  /\ map (fun n => (tn_hold n, tn_col n, tn_time n, tn_len n)) (tl_notes (tl_of_qua e))
+                     = [(false, 0%Z, 500, 0); (false, 3%Z, 625, 0); (true, 2%Z, 500, 375)]
+                  /\ tl_tempo (tl_of_qua e) = [(250, 300)]
+      | None => False end
+  | _, _ => False
+  end.
+Proof. exact Examples.qua_example. Qed.
+(* osu: a 7-key chart WITHOUT a preview point (PreviewTime -1) rated by 2 through writer model and reference semantics: C01's
+   write oracle accepts the text, the five lists survive, the timeline is the rated one within 1 ms, and the text still says
+   "no preview point" *)
+Example C13_example_osu_write :
+  Osu.meta_num (Osu.c_meta OsuRateProofs.wit_chart) OsuRate.IX_PREVIEW = -1 /\
+  match Osu.osu_write (OsuRate.osu_chart_rate 2 OsuRateProofs.wit_chart) (Text.t "Re:Zero"%string) [] with
+  | Some wl =>
+      let written := Osu.file_lines (OsuProofs.render wl) in
+      OsuSpec.write_specb 0 (OsuRate.osu_chart_rate 2 OsuRateProofs.wit_chart) (Text.t "Re:Zero"%string) [] written = true
+      /\ match OsuSpec.osu_denote written with
+         | Some d => OsuRateProofs.lists_written d (OsuRate.osu_chart_rate 2 OsuRateProofs.wit_chart) = true
+                     /\ timeline_closeb 1 0 (tl_of_osu d) (tl_scale 2 (OsuRate.tl_of_chart OsuRateProofs.wit_chart)) = true
+                     /\ nth OsuRate.IX_PREVIEW (OsuSpec.d_meta d) None = Some (Osu.MNum (-1))
+         | None => False end
+  | None => False
+  end.
+Proof. exact OsuRateProofs.osu_example_survives. Qed.
+(* the same chart with a preview point at 12345 ms: written as int(6172.5) = 6172; C01's oracle (written_chart does not
+   truncate PreviewTime) rejects the text for that reason alone - hence the list version of the partial theorem *)
+Example C13_example_osu_fractional_preview :
+  match Osu.osu_write (OsuRate.osu_chart_rate 2 OsuRateProofs.wit_chart_pv) (Text.t "Re:Zero"%string) [] with
+  | Some wl =>
+      let written := Osu.file_lines (OsuProofs.render wl) in
+      OsuSpec.write_specb 0 (OsuRate.osu_chart_rate 2 OsuRateProofs.wit_chart_pv) (Text.t "Re:Zero"%string) [] written = false
+      /\ match OsuSpec.osu_denote written with
+         | Some d => OsuRateProofs.lists_written d (OsuRate.osu_chart_rate 2 OsuRateProofs.wit_chart_pv) = true
+                     /\ nth OsuRate.IX_PREVIEW (OsuSpec.d_meta d) None = Some (Osu.MNum 6172)
+         | None => False end
+  | None => False
+  end.
+Proof. exact OsuRateProofs.osu_example_fractional_preview. Qed.
+(* StepMania / BMS: the formats' own non-vacuity charts, rated, are in the domains of the two theorems *)
+Example C13_example_sm_write :
+  SMWriteWholeFile.c03_domb (SMRate.sm_set_rate 2 SMWriteWholeEx.c03_ex_set) = true /\
+  SMWriteWholeFile.c03_domb (SMRate.sm_set_rate (3 # 4) SMWriteWholeEx.c03_ex_set) = true /\
+  SM.s_offset SMWriteWholeEx.c03_ex_set <> Some 0 /\ length (SM.s_maps SMWriteWholeEx.c03_ex_set) = 2%nat.
+Proof. exact Examples.sm_example. Qed.
+Example C13_example_bms_write :
+  BMSSpec.write_dom Tables.Tables.snapper_table Tables.Tables.bms.max_keys Tables.Tables.bms.layout_BME [48;49]%Z (BMSRate.bms_chart_rate 2 Examples.bms_ex) = true /\
+  BMSSpec.write_dom Tables.Tables.snapper_table Tables.Tables.bms.max_keys Tables.Tables.bms.layout_BME [48;49]%Z (BMSRate.bms_chart_rate (1 # 2) Examples.bms_ex) = true /\
+  length (BMS.w_hits Examples.bms_ex) = 6%nat /\ length (BMS.w_holds Examples.bms_ex) = 2%nat /\
+  length (BMS.w_bpms Examples.bms_ex) = 2%nat.
+Proof. exact Examples.bms_example. Qed.
